@@ -37,6 +37,7 @@ class Contract:
         self.body_slice = None        # callable(list of stmts) -> (kept stmts, dropped stmts)
         self.dropped_scan = None      # callable(dropped stmts) -> None | reason (syntactic frame of the rest)
         self.exc_ensures = []         # (exc type, name, expr over exc_arg) checked on raising paths
+        self.raise_only_if = {}       # exc type -> expr (necessary condition for raising)
 
     # builder API ------------------------------------------------------------
     def req(self, expr):
@@ -47,8 +48,11 @@ class Contract:
         self.ensures.append((name or f"post{len(self.ensures)}", expr))
         return self
 
-    def rais(self, exc, when=None):
+    def rais(self, exc, when=None, only_if=None):
+        """when: raises exactly when it holds; only_if: may raise, but only if it holds"""
         self.raises.append((exc, when))
+        if only_if is not None:
+            self.raise_only_if[exc] = only_if
         return self
 
     def ens_exc(self, exc, expr, name=None):
@@ -84,6 +88,11 @@ class Contract:
             for s1, _ in paths:
                 if when is None:
                     s2 = s1.fork()
+                    if exc in self.raise_only_if:
+                        s2.assume(E.spec_formula(s2, self.raise_only_if[exc], frame, old_state=pre))
+                        if not E.feasible(s2):
+                            nxt.append((s1, None))
+                            continue
                     out.append((s2, Raised(ExcVal(exc, ()))))
                     nxt.append((s1, None))
                 else:
@@ -199,6 +208,11 @@ class _OldRewriter(ast.NodeTransformer):
             name = f"__old{len(self.olds)}"
             self.olds.append((name, node.args[0]))
             return ast.copy_location(ast.Name(id=name, ctx=ast.Load()), node)
+        if isinstance(node.func, ast.Name) and node.func.id == "implies" and len(node.args) == 2:
+            # lazy implication: the consequent is only evaluated where the antecedent holds
+            a, b = self.visit(node.args[0]), self.visit(node.args[1])
+            new = ast.BoolOp(op=ast.Or(), values=[ast.UnaryOp(op=ast.Not(), operand=a), b])
+            return ast.copy_location(new, node)
         return self.generic_visit(node)
 
 
@@ -408,6 +422,7 @@ def verify(E, contract, variant=None, setup=None):
     E.prefix = saved_prefix + short + (f"[{variant}]" if variant else "") + "."
     st = State()
     E.verifying = contract
+    E.verifying_depth = len(E.current_func) + 1
     saved_loops = dict(E.loop_specs)
     for o, ls in contract.loops.items():
         E.loop_specs[(fref.key, o)] = ls
@@ -431,6 +446,12 @@ def verify(E, contract, variant=None, setup=None):
         # vacuity: the precondition must be satisfiable
         if not E.feasible(st):
             raise SpecError(f"precondition of {contract.key} is unsatisfiable (vacuous contract)")
+        if any(E.has_quantifier(t) for t in st.pc):
+            _s = z3.Solver()
+            _s.set("timeout", 10000)
+            _s.add(*st.pc)
+            if _s.check() == z3.unsat:
+                raise SpecError(f"precondition of {contract.key} is unsatisfiable (vacuous contract)")
         entry = st.fork()
         entry.frames.append(dict(frame))
         E.entry_states.append(entry)
@@ -466,6 +487,10 @@ def verify(E, contract, variant=None, setup=None):
                                 f = spec_formula(E, s, e, {"exc_arg": arg}, old_state=entry)
                                 E.oblige(s, f"raises.{exc}.{name}", f, kind="post", meta={"ensures": e})
                         for exc, when in allowed:
+                            if exc in contract.raise_only_if:
+                                E.oblige(s, f"raises.{exc}.only_if",
+                                         spec_formula(E, s, contract.raise_only_if[exc], old_state=entry),
+                                         kind="raises", meta={"when": contract.raise_only_if[exc]})
                             if when is not None:
                                 E.oblige(s, f"raises.{exc}.when", spec_formula(E, s, when, old_state=entry),
                                          kind="raises", meta={"when": when})
@@ -539,6 +564,8 @@ def new_engine(repo=None):
     E.slice_models = {}
     E.seq_models = {}
     E.index_models = {}
+    E.len_hooks = []
+    E.value_attr_hooks = []
     E.setitem_models = {}
     E.spec_env = []
     E.entry_states = []
